@@ -9,4 +9,5 @@ mkdir -p work evidence replays
 (cd miri && CARGO_TARGET_DIR=/verif/target/miri cargo +nightly miri setup 2>&1 | tail -1) || echo "miri setup failed (C18 engine B will report a harness error)"
 # sudachipy extension + CLI (C19, C06 front-end sinks, C18 Python threads); rebuilt by the checks whenever /repo changes
 (cd /repo && CARGO_TARGET_DIR=/verif/target/py cargo build -p sudachipy -p sudachi-cli --offline 2>&1 | tail -1)
+(cd seam && CARGO_TARGET_DIR=/verif/target/seam cargo build --offline 2>&1 | tail -1)
 echo "setup done"
